@@ -150,6 +150,13 @@ def step (s : S) (line : String) : S × String :=
   | "data" :: _ =>
     let xs := parseBitsList ((arg? ws "xs").getD "-")
     ({ s with xs := xs }, s!"ok n={xs.size}")
+  | "fitcount" :: _ =>
+    let c := parseBitsList ((arg? ws "cs").getD "-")
+    if c.size < 1 then (s, "bad-op") else
+    match (arg? ws "kind").getD "" with
+    | "lognormal" => (s, fitOut (lognormalFitCountHistogram c))
+    | "gamma" => (s, "unmodelled")
+    | _ => (s, "bad-op")
   | "fit" :: _ =>
     let xs := s.xs
     let kind := (arg? ws "kind").getD ""
